@@ -278,6 +278,35 @@ var c03Gates = []c03Gate{
 	{"short array and list in foreach", "<?php foreach ($a as list($b, $c)) {}", 5, 0, true},
 }
 
+// numeric literals (PHP manual: integers, floating point numbers, string interpolation:
+// "simple syntax" array offsets are integers only when written as plain decimal numbers)
+type c03Literal struct {
+	text, want, pick string
+	php74            bool
+	value            string // "7": PHP 7 only (negative offsets inside strings)
+}
+
+func (l c03Literal) valueText() string { return l.text }
+
+var c03Literals = []c03Literal{
+	{"0", "ScalarLnumber", "expr", false, ""}, {"1234567890", "ScalarLnumber", "expr", false, ""},
+	{"9223372036854775807", "ScalarLnumber", "expr", false, ""}, {"9223372036854775808", "ScalarDnumber", "expr", false, ""},
+	{"0x7FFFFFFFFFFFFFFF", "ScalarLnumber", "expr", false, ""}, {"0x8000000000000000", "ScalarDnumber", "expr", false, ""},
+	{"0X1f", "ScalarLnumber", "expr", false, ""}, {"0b101", "ScalarLnumber", "expr", false, ""}, {"0B11", "ScalarLnumber", "expr", false, ""},
+	{"0777", "ScalarLnumber", "expr", false, ""}, {"01777777777777777777777", "ScalarDnumber", "expr", false, ""},
+	{"0b111111111111111111111111111111111111111111111111111111111111111", "ScalarLnumber", "expr", false, ""},
+	{"0b1000000000000000000000000000000000000000000000000000000000000000", "ScalarDnumber", "expr", false, ""},
+	{"1.5", "ScalarDnumber", "expr", false, ""}, {".5", "ScalarDnumber", "expr", false, ""}, {"1.", "ScalarDnumber", "expr", false, ""},
+	{"1e3", "ScalarDnumber", "expr", false, ""}, {"1E-3", "ScalarDnumber", "expr", false, ""}, {"1.5e+3", "ScalarDnumber", "expr", false, ""},
+	{"1_000", "ScalarLnumber", "expr", true, ""}, {"0x1_F", "ScalarLnumber", "expr", true, ""}, {"1_0.5_0", "ScalarDnumber", "expr", true, ""},
+	{"0", "ScalarLnumber", "dim", false, ""}, {"7", "ScalarLnumber", "dim", false, ""}, {"1234567890", "ScalarLnumber", "dim", false, ""},
+	{"9223372036854775807", "ScalarLnumber", "dim", false, ""}, {"9223372036854775808", "ScalarString", "dim", false, ""},
+	{"017", "ScalarString", "dim", false, ""}, {"00", "ScalarString", "dim", false, ""},
+	{"0x1F", "ScalarString", "dim", false, ""}, {"0b11", "ScalarString", "dim", false, ""},
+	{"-1", "ExprUnaryMinus(ScalarLnumber)", "dim", false, "7"}, {"-0x1F", "ScalarString", "dim", false, "7"}, {"-017", "ScalarString", "dim", false, "7"},
+	{"a", "ScalarString", "dim", false, ""}, {"1_000", "ScalarString", "dim", true, ""}, {"-1_0", "ScalarString", "dim", true, ""},
+}
+
 func runC03(c *Check) error {
 	c.Assumptions = append(c.Assumptions, stdAssumptions...)
 	c.Assumptions = append(c.Assumptions,
@@ -451,7 +480,24 @@ func runC03(c *Check) error {
 		}
 		needs = append(needs, JobNeed{Job: j, Cover: cv})
 	}
+	// (6) numeric literals: integer vs float by range, offsets inside strings
+	for _, ver := range vers {
+		for _, l := range c03Literals {
+			if (l.php74 || l.value == "7") && ver != "7.4" {
+				continue
+			}
+			src := "<?php " + l.text + ";"
+			if l.pick == "dim" {
+				src = "<?php \"$a[" + l.text + "]\";"
+			}
+			add("H_C03_Literal", "literals", ver, []string{tC(src)}, map[string]interface{}{"want": l.want, "pick": l.pick, "text": l.valueText(), "what": l.text + " as " + l.pick}, "checked")
+			if l.pick == "dim" {
+				add("H_C03_Literal", "literals", ver, []string{tC("<?php <<<A\n$a[" + l.text + "]\nA;\n")}, map[string]interface{}{"want": l.want, "pick": l.pick, "text": l.valueText(), "what": l.text + " as heredoc " + l.pick}, "checked")
+			}
+		}
+	}
 	c.ExploreNeeds(needs, nil)
+	c.Extra["literals"] = len(c03Literals)
 	c.Extra["keywords"] = len(kws)
 	c.Extra["cast_spellings"] = len(c03Casts)
 	c.Extra["expression_templates"] = nexpr
@@ -464,6 +510,7 @@ func runC03(c *Check) error {
 		"dangling else: if-chains of depth 2..4 with 0..depth else clauses, each optionally preceded by an elseif",
 		"acceptance: every program of the committed corpus (test snippets and grammar sentences) that the baseline accepts under 7.4 / 7.2 / 5.6",
 		bound("version gating: %d constructs with a fully symbolic supported version (accepted exactly from the version that introduced them)", len(c03Gates)),
+		bound("literals: %d integer / float / string-offset spellings at the range and radix boundaries (integer overflow becomes a float, non-decimal offsets inside strings are string keys)", len(c03Literals)),
 		"all statement and expression forms arbitrarily nested and combined are NOT covered: the claim is exactly these families")
 	return nil
 }
